@@ -102,16 +102,19 @@ int __wrap_shm_unlink(const char *n) { int r; crash_point(0); decide(W_SHM_UNLIN
 int __wrap_ftruncate(int fd, off_t l) { int r; crash_point(0); decide(W_FTRUNCATE, 0, NULL); w_t_fdcalls += fd >= 0; r = __real_ftruncate(fd, l); crash_point(1); return r; }
 void *__wrap_mmap(void *a, size_t l, int p, int f, int fd, off_t o) { void *r; crash_point(0); decide(W_MMAP, 0, NULL); r = __real_mmap(a, l, p, f, fd, o); crash_point(1); return r; }
 int __wrap_munmap(void *a, size_t l) { int r; crash_point(0); decide(W_MUNMAP, 0, NULL); r = __real_munmap(a, l); crash_point(1); return r; }
+int w_fd_exhausted;     /* while set, calls that need a new descriptor fail with EMFILE (descriptor table full) */
 sem_t *__wrap_sem_open(const char *name, int oflag, ...) {
 	sem_t *r; mode_t mode = 0; unsigned value = 0; va_list ap;
 	if (oflag & O_CREAT) { va_start(ap, oflag); mode = va_arg(ap, mode_t); value = va_arg(ap, unsigned); va_end(ap); }
 	else { va_start(ap, oflag); mode = va_arg(ap, mode_t); value = va_arg(ap, unsigned); va_end(ap); }   /* plibsys always passes four arguments */
 	crash_point(0);
+	if (w_fd_exhausted) { errno = EMFILE; return SEM_FAILED; }
 	if (decide(W_SEM_OPEN, WK_EINTR, NULL)) { errno = EINTR; return SEM_FAILED; }
 	r = __real_sem_open(name, oflag, mode, value); crash_point(1); return r;
 }
 int __wrap_shm_open(const char *name, int oflag, mode_t mode) {
 	int r; crash_point(0);
+	if (w_fd_exhausted) { errno = EMFILE; return -1; }
 	if (decide(W_SHM_OPEN, WK_EINTR, NULL)) { errno = EINTR; return -1; }
 	r = __real_shm_open(name, oflag, mode); if (r >= 0) fd_opened(r); crash_point(1); return r;
 }
